@@ -16,6 +16,8 @@ import CapyV.Driver.C08
 import CapyV.Driver.C14
 import CapyV.Driver.C09
 import CapyV.Driver.C02
+import CapyV.Driver.C15
+import CapyV.Driver.C11
 open CapyV.Driver
 
 def dispatch (line : String) : String :=
@@ -39,6 +41,8 @@ def dispatch (line : String) : String :=
   | "C14" :: args => c14 args
   | "C09" :: args => c09 args
   | "C02" :: args => c02 args
+  | "C15" :: args => c15 args
+  | "C11" :: args => c11 args
   | _ => "bad-op"
 
 partial def loop (h : IO.FS.Stream) (out : IO.FS.Stream) : IO Unit := do
